@@ -29,6 +29,55 @@ _CS = [
             guarded={"recv.mux": ["recv.handlers", "recv.closed", "recv.conn"]}),
 ]
 
+
+
+def cs_oncomplete_submits_job(sc):
+    """Pipeline step `parse`: OnComplete hands handler + flushResponse to parser.Execute as ONE job (both calls sit in the
+    closure passed to Execute, in this order), starts no goroutine and runs neither of them inline."""
+    fl = cs.facts(sc, "nbhttp/processor.go").get("nbhttp.ServerProcessor.OnComplete")
+    if fl is None:
+        return False, "ServerProcessor.OnComplete not found"
+    calls = [f for f in fl if f["kind"] == "call"]
+    ex = [f for f in calls if f["expr"] == "parser.Execute" and f["closure"] == 0]
+    sv = [f for f in calls if f["expr"] == "engine.Handler.ServeHTTP"]
+    fr = [f for f in calls if f["expr"] == "recv.flushResponse"]
+    problems = []
+    if len(ex) != 1:
+        problems.append("expected exactly one top-level call of parser.Execute, found %d" % len(ex))
+    if len(sv) != 1 or len(fr) != 1:
+        problems.append("expected one ServeHTTP and one flushResponse call, found %d/%d" % (len(sv), len(fr)))
+    elif not (sv[0]["closure"] >= 1 and sv[0]["closure"] == fr[0]["closure"] and sv[0]["line"] < fr[0]["line"]):
+        problems.append("ServeHTTP and flushResponse are not (in this order) in the one closure handed to Execute")
+    if [f for f in fl if f["kind"] == "go"]:
+        problems.append("go statement in OnComplete")
+    return (not problems), "; ".join(problems)
+
+
+def cs_flush_before_close(sc):
+    """Pipeline step `finish`: in flushResponse the response is flushed (res.flush) before any conn.Close, and the
+    close decision is acted on in the same function (so inside the job: no other job of the connection runs in between)."""
+    fl = cs.facts(sc, "nbhttp/processor.go").get("nbhttp.ServerProcessor.flushResponse")
+    if fl is None:
+        return False, "ServerProcessor.flushResponse not found"
+    calls = [f for f in fl if f["kind"] == "call" and f["closure"] == 0]
+    fls = [f["line"] for f in calls if f["expr"] == "res.flush"]
+    cls = [f["line"] for f in calls if f["expr"] == "conn.Close"]
+    problems = []
+    if len(fls) != 1:
+        problems.append("expected one res.flush call, found %d" % len(fls))
+    if not cls:
+        problems.append("no conn.Close call (predicate vacuous)")
+    if fls and cls and min(cls) < fls[0]:
+        problems.append("conn.Close at line %d precedes res.flush at line %d" % (min(cls), fls[0]))
+    if [f for f in fl if f["kind"] == "go"]:
+        problems.append("go statement in flushResponse")
+    return (not problems), "; ".join(problems)
+
+
+# Pipeline steps: `parse` (OnComplete -> Execute: submit atomic), `start/finish` (Conn.execute: next job taken under the
+# mutex, job run outside), `write` (Conn.Write one critical section), closes (test-and-set of closed)
+_CS_PIPE = [cs_oncomplete_submits_job, cs_flush_before_close] + cs.JOBQ + cs.WRITE[:1] + cs.WRITE[2:3] + cs.CLOSE[:1]
+
 PROPS = {
     "C10": {
         "manifest": {
@@ -41,11 +90,18 @@ PROPS = {
                     "response sequence observed by a raw pipelining client, net/http and the nbhttp client is compared with the model's "
                     "prediction over the matrix IOMod x {plain, TLS} x epoll mode, plus direct oracles for order, close, foreign bytes, callbacks",
             "note": "proof on model, partial: TLS record layer, real scheduling and I/O-mode dispatch are exercised, not modelled; "
-                    "the model is above C05/C06/C07/C09/C11/C20 (their conclusions are hypotheses of the composition)",
+                    "the model is above C05/C06/C07/C09/C11/C20 (their conclusions are hypotheses of the composition; C05's are cited in the "
+                    "closure, c10_queue_field_is_c05, not refined).  Clause status: 'answers each request exactly once' is VIOLATED on the tree "
+                    "for closing requests whose response the kernel did not take in full (finding c10-close-drops-backlog, "
+                    "c10_pipeline_counterexample); it is proved for histories without a closing request under any kernel behaviour "
+                    "(c10_pipeline_keepalive), for any history when the kernel takes every write in full (c10_pipeline), and otherwise only "
+                    "under the ghost condition dropped = false (c10_pipeline_partial).  'bytes never appear on another connection': the "
+                    "SharedHeap theorem is about the mechanism and is executed by no driver — the tie of this clause is the oracle "
+                    "c10-foreign only.  Shared pollers / executors / the fd table have no model (oracles only)",
             "technique": "Lean 4 proof (invariants over all interleavings, simulation for non-interference) + differential correspondence on real sockets"},
         "lean": ["NbioVerif.Properties.C10"], "drivers": ["pipedrv"], "harness": ["he2e"],
         "runs": [E2E_RUN],
-        "oracles": ["c10-"], "cs": _CS,
+        "oracles": ["c10-"], "cs": _CS + _CS_PIPE,
         "rule": "case = one matrix cell + 1..64 concurrent connection histories (raw pipelining client, net/http, nbhttp ClientConn pipelined, "
                 "nbhttp Client pool); distinct by hash of (cell, client kinds, per request: version, Connection values, framing, size class, "
                 "writes, sync); non-trivial iff a history has >= 3 requests, a response >= 60 KB or a possibly closing request",
@@ -57,6 +113,16 @@ PROPS = {
                         "a client does not pipeline behind a closing request whose response exceeds 32 KB (RFC 7230 6.6 reset hazard)",
                         "the nbhttp client is exercised over TLS 1.2 (llib v1.2.4's TLS 1.3 client handshake fails on this toolchain, outside nbio) "
                         "and without HEAD (its response parser does not know the request method)",
-                        "timing: a stalled case is re-run twice before it is reported; content failures are reported at once"],
+                        "timing: a stalled case is re-run twice before it is reported; content failures are reported at once",
+                        "echoed inputs of the model (taken from the implementation, not computed): got= (number of responses the nbhttp "
+                        "client's parser delivered; the model only insists got <= what the server sent), lost= (pool-client requests whose "
+                        "callback got an error), cut= (first response that broke off; accepted only if a closing request at or behind it "
+                        "exists); sched= comes from the generator, the real interleaving is not observed; cfg.sync is not observable; "
+                        "the ghost `handled` is not compared (handler order is a direct oracle instead); st=/body=/rb= are recomputed by "
+                        "driver glue from the request line, not by a proved function",
+                        "ClientFifo operations never executed against the implementation: timeout expiry inside onResponse, reset "
+                        "(the pool client is predicted per exchange); executed: do_ (dial ok / dial failed / write failed via nbx), "
+                        "onResponse (current and stale connection), connClosed, closeAll",
+                        "a callback that panics is outside the model (pop and call are one step); covered by harness histories cbpanic="],
     },
 }
